@@ -106,7 +106,8 @@ Map(s, F(_)) == [i \in DOMAIN s |-> F(s[i])]
    Levels are counted from the bottom: level 1 is the class that declares the variable of
    interest x, level i >= 2 declares instances of the level i-1 class, level pv.depth is Top.      *)
 
-Modes == {"none", "one", "late", "chain", "multi"}
+Modes == {"none", "one", "late", "chain", "multi", "chain2"}
+HierModes == Modes \ {"chain2"}      \* chain2 (two extends levels that both modify the target) only matters for C08
 
 CN(d, i) == IF i = d THEN "Top" ELSE <<"Leaf", "Mid", "Mid2">>[i]
 IN1(i) == IF pv.same THEN "a" ELSE "a" \o ToString(i)     \* first instance declared by level i
@@ -124,8 +125,10 @@ IsAliasX == pv.xtype \in {"aR", "aI", "aB", "aaR"}
 
 Pre(s) == IF s = "" THEN <<>> ELSE <<s>>
 
-(* modification sites: [k, i, e]  k \in {"type","decl","ext","comp"}, i = level, e \in {"lit","ref"} *)
-Rank(m) == CASE m.k = "type" -> 0 [] m.k = "decl" -> 1 [] m.k = "ext" -> 3 * m.i [] m.k = "comp" -> 3 * m.i - 1
+(* modification sites: [k, i, e]  k \in {"type","decl","extb","ext","comp"}, i = level, e \in {"lit","ref"};
+   "extb" = the INNER extends clause of a two-level chain (split mode chain2):  LeafB extends LeafB0(x(..)) *)
+Rank(m) == CASE m.k = "type" -> 0 [] m.k = "decl" -> 1 [] m.k = "ext" -> 4 * m.i [] m.k = "extb" -> 4 * m.i - 1
+             [] m.k = "comp" -> 4 * m.i - 2
 MExpr(m) ==
     IF pv.attr = "fixed" THEN BoolE(Rank(m) % 2 = 1)
     ELSE IF pv.attr = "unit" THEN StrE("u" \o ToString(Rank(m)))
@@ -144,6 +147,7 @@ MkArg(s, t, a, e) ==
       [] OTHER        -> IF a = "value" THEN Arg(t, <<>>, <<e>>) ELSE Arg(t, <<Arg(<<a>>, <<>>, <<e>>)>>, <<>>)
 
 ExtArgs(s, i)  == Map(SiteMods("ext", i),  LAMBDA m : MkArg(s, XPath(i), pv.attr, MExpr(m)))
+ExtBArgs(s, i) == Map(SiteMods("extb", i), LAMBDA m : MkArg(s, XPath(i), pv.attr, MExpr(m)))
 CompArgs(s, i) == Map(SiteMods("comp", i), LAMBDA m : MkArg(s, XPath(i - 1), pv.attr, MExpr(m)))
 DeclMods == LET ms == SiteMods("decl", 1) IN
             IF pv.attr = "value" THEN <<>> ELSE Map(ms, LAMBDA m : Arg(<<pv.attr>>, <<>>, <<MExpr(m)>>))
@@ -198,6 +202,10 @@ LevelClasses(s, i, innerMain, innerBase) ==
               <<Cl("model", n \o "B0", <<>>, <<>>, <<PComp(i)>>, <<>>, <<>>),
                 Cl("model", n \o "B", <<Ext(<<n \o "B0">>, <<>>)>>, innerMain, MainComps(s, i), MainEqs(i), MainIeqs(i)),
                 Cl("model", n, <<Ext(BaseRef(i, n \o "B"), xa)>>, <<>>, RestComps(i) \o PClash(i), RestEqs(i), RestIeqs(i))>>
+         [] md = "chain2" ->     \* the main components live in B0; B extends B0(inner modifiers); n extends B(outer modifiers)
+              <<Cl("model", n \o "B0", <<>>, innerMain, <<PComp(i)>> \o MainComps(s, i), MainEqs(i), MainIeqs(i)),
+                Cl("model", n \o "B", <<Ext(<<n \o "B0">>, ExtBArgs(s, i))>>, <<>>, <<>>, <<>>, <<>>),
+                Cl("model", n, <<Ext(BaseRef(i, n \o "B"), xa)>>, <<>>, RestComps(i) \o PClash(i), RestEqs(i), RestIeqs(i))>>
          [] md = "multi" ->
               <<Cl("model", n \o "BA", <<>>, <<>>, <<PComp(i)>>, <<>>, <<>>),
                 Cl("model", n \o "BB", <<>>, innerMain, MainComps(s, i), MainEqs(i), MainIeqs(i)),
@@ -231,14 +239,15 @@ Lib(s) ==
 TopPath == CASE pv.wrap = 0 -> <<"Top">> [] pv.wrap = 1 -> <<"P", "Top">>
              [] pv.wrap = 2 -> <<"P", "Q", "Top">> [] pv.wrap = 3 -> <<"P2", "Top">>
 
-HasSpellable == \E j \in DOMAIN pv.mods : pv.mods[j].k \in {"ext", "comp"}
+HasSpellable == \E j \in DOMAIN pv.mods : pv.mods[j].k \in {"ext", "extb", "comp"}
 Spellings == IF HasSpellable THEN <<"mixed", "dotted", "nested">> ELSE <<"mixed">>
 
 (* ---- well-formedness of a parameter vector (also applied to vectors read from a file) ---- *)
 SiteOK(m) ==
     CASE m.k = "type" -> m.i = 0 /\ IsAliasX /\ pv.attr # "value" /\ m.e = "lit"
       [] m.k = "decl" -> m.i = 1
-      [] m.k = "ext"  -> m.i \in 1..pv.depth /\ pv.split[m.i] \in {"one", "chain", "multi"}
+      [] m.k = "ext"  -> m.i \in 1..pv.depth /\ pv.split[m.i] \in {"one", "chain", "multi", "chain2"}
+      [] m.k = "extb" -> m.i \in 1..pv.depth /\ pv.split[m.i] = "chain2"
       [] m.k = "comp" -> m.i \in 2..pv.depth
       [] OTHER -> FALSE
 WellFormed ==
@@ -247,7 +256,7 @@ WellFormed ==
     /\ pv.nest \in {"lib", "user", "userbase"}
     /\ (pv.nest # "lib" => pv.depth >= 2)
     /\ (pv.nest = "userbase" => pv.split[2] = "late")
-    /\ (pv.wrap = 3 => pv.split[pv.depth] \in {"one", "chain"} /\ (pv.nest = "lib" \/ pv.depth > 2))
+    /\ (pv.wrap = 3 => pv.split[pv.depth] \in {"one", "chain", "chain2"} /\ (pv.nest = "lib" \/ pv.depth > 2))
     /\ (pv.wrap = 2 => pv.nest = "lib" \/ pv.depth > 2)
     /\ pv.xtype \in {"Real", "Integer", "Boolean", "aR", "aI", "aB", "aaR"}
     /\ (pv.shadow => pv.nest # "lib")
@@ -609,8 +618,9 @@ Declarative(L, top) ==
 
 PreChoices == IF Wide THEN {"", "parameter", "constant", "discrete", "flow", "input", "output"}
               ELSE {"", "parameter", "flow", "input", "output"}
-SplitSeqs(d) == {s \in [1..d -> Modes] : Cardinality({i \in 1..d : s[i] # "none"}) <= (IF Wide THEN 2 ELSE 1)}
+SplitSeqs(d) == {s \in [1..d -> HierModes] : Cardinality({i \in 1..d : s[i] # "none"}) <= (IF Wide THEN 2 ELSE 1)}
 PlainSplits(d) == {s \in SplitSeqs(d) : \A i \in 1..d : s[i] \in {"none", "one"}}
+ModSplits(d) == PlainSplits(d) \cup {[i \in 1..d |-> IF i = k THEN "chain2" ELSE "none"] : k \in 1..d}
 
 PV(d, f, sm, w, n, s, xt, xd, xp, yp, iq, at, ms, cl, sh) ==
     [depth |-> d, fan |-> f, same |-> sm, wrap |-> w, nest |-> n, split |-> s, xtype |-> xt, xdims |-> xd,
@@ -641,7 +651,8 @@ Sites(d, split, alias) ==
     {[k |-> "decl", i |-> 1]}
     \cup (IF alias THEN {[k |-> "type", i |-> 0]} ELSE {})
     \cup {[k |-> "comp", i |-> i] : i \in 2..d}
-    \cup {[k |-> "ext", i |-> i] : i \in {j \in 1..d : split[j] \in {"one", "chain", "multi"}}}
+    \cup {[k |-> "ext", i |-> i] : i \in {j \in 1..d : split[j] \in {"one", "chain", "multi", "chain2"}}}
+    \cup {[k |-> "extb", i |-> i] : i \in {j \in 1..d : split[j] = "chain2"}}
 
 ModSeqs(S, kinds, maxn) ==      \* subsets of at most maxn sites with an expression kind each, outermost first
     UNION {{LET ss == SetToSortSeq(T, LAMBDA a, b : Rank(a) > Rank(b))
@@ -655,14 +666,19 @@ ModsFamily ==
             {PV(d, 1, sm, 0, "lib", s, xt, 0, xp, "", FALSE, at, ms, FALSE, FALSE) :
                 sm \in (IF d >= 3 THEN BOOLEAN ELSE {FALSE}), xp \in {"", "parameter"},
                 at \in {"value", "start", "min", "max", "nominal", "fixed", "unit"},
-                ms \in ModSeqs(Sites(d, s, xt # "Real"), {"lit", "ref"}, IF d >= 3 /\ ~Wide THEN 2 ELSE 3)}
-            : s \in PlainSplits(d), xt \in {"Real", "aR", "aaR"}} : d \in 1..MaxDepth} :
+                ms \in ModSeqs(Sites(d, s, xt # "Real"), {"lit", "ref"}, IF d >= 3 /\ ~Wide /\ \A i \in 1..d : s[i] # "chain2" THEN 2 ELSE 3)}
+            : s \in ModSplits(d), xt \in {"Real", "aR", "aaR"}} : d \in 1..MaxDepth} :
         \* attribute kinds other than start / value are exercised on the plain shapes only
         /\ (v.attr \notin {"start", "value"} => v.xtype = "Real" /\ v.xpre = "" /\ ~v.same)
         /\ (v.xpre # "" => v.attr = "value" \/ Wide)          \* a parameter's value stays an attribute, a variable's becomes an equation
         /\ (v.attr \in {"fixed", "unit"} => \A j \in DOMAIN v.mods : v.mods[j].e = "lit")
         /\ (v.xtype # "Real" => v.xpre = "" /\ ~v.same /\ \E j \in DOMAIN v.mods : v.mods[j].k \in {"type", "decl"})
         /\ (v.same => \E j \in DOMAIN v.mods : v.mods[j].e = "ref")
+        \* a two-level extends chain is only interesting when BOTH of its clauses modify the target
+        /\ \A i \in 1..v.depth : v.split[i] = "chain2" =>
+               /\ \E j \in DOMAIN v.mods : v.mods[j].k = "ext" /\ v.mods[j].i = i
+               /\ \E j \in DOMAIN v.mods : v.mods[j].k = "extb" /\ v.mods[j].i = i
+               /\ v.xtype = "Real" \/ v.attr = "start"
     }
 
 FilePVs == IF Family = "file" THEN JsonDeserialize(IOEnv.PV_FILE) ELSE <<>>
@@ -670,7 +686,7 @@ FilePVs == IF Family = "file" THEN JsonDeserialize(IOEnv.PV_FILE) ELSE <<>>
 --------------------------------------------------------------------------------
 (* Shape tags.  ctags name the features that matter for the known as-built deviations; they become
    the `tags` of violation records so that a known finding can be matched narrowly. *)
-SpellableOuter == {j \in DOMAIN pv.mods : pv.mods[j].k \in {"ext", "comp"}}
+SpellableOuter == {j \in DOMAIN pv.mods : pv.mods[j].k \in {"ext", "extb", "comp"}}
 CTags(s) ==
     (IF s = "dotted" /\ pv.attr # "value" /\ SpellableOuter # {} THEN {"dotted-attr"} ELSE {})
     \cup (IF pv.attr \notin {"value", "fixed", "unit"} /\ \E j \in SpellableOuter : pv.mods[j].e = "ref" /\ s # "dotted"
@@ -704,7 +720,7 @@ FamilySet == CASE Family = "hier" -> HierFamily [] Family = "mods" -> ModsFamily
 StrIdx(w) == CASE w = "" -> 0 [] w = "parameter" -> 1 [] w = "constant" -> 2 [] w = "discrete" -> 3 [] w = "flow" -> 4
                [] w = "input" -> 5 [] w = "output" -> 6 [] w = "Real" -> 0 [] w = "Integer" -> 1 [] w = "Boolean" -> 2
                [] w = "aR" -> 3 [] w = "aI" -> 4 [] w = "aB" -> 5 [] w = "aaR" -> 6
-               [] w = "none" -> 0 [] w = "one" -> 1 [] w = "late" -> 2 [] w = "chain" -> 3 [] w = "multi" -> 4
+               [] w = "none" -> 0 [] w = "one" -> 1 [] w = "late" -> 2 [] w = "chain" -> 3 [] w = "multi" -> 4 [] w = "chain2" -> 5
                [] w = "lib" -> 0 [] w = "user" -> 1 [] w = "userbase" -> 2
                [] w = "value" -> 1 [] w = "start" -> 2 [] w = "min" -> 3 [] w = "max" -> 4 [] w = "nominal" -> 5
                [] w = "fixed" -> 6 [] w = "unit" -> 7 [] w = "lit" -> 0 [] w = "ref" -> 1 [] OTHER -> 9
